@@ -33,7 +33,8 @@ pub struct Case {
     /// use a non-canonical (permuted tables, moved strings) image
     pub alt_image: bool,
     pub negative: Negative,
-    /// bit 0: every record also carries its file name as a label (game-style); bit 1: no word alignment before the tables
+    /// bit 0: every record also carries its file name as a label (game-style); bit 1: no word alignment before the tables;
+    /// bit 2: the second record does not get a body of its own but a sub-range of the first record's body (overlapping ranges)
     #[serde(default)]
     pub extras: u8,
 }
@@ -106,11 +107,21 @@ pub fn build(case: &Case) -> Built {
             }
             b => {
                 let i = b - 2;
+                if case.extras & 4 == 4 && i == 1 && n >= 2 {
+                    continue; // placed below, inside the body of file 0
+                }
                 body_addr[i] = data.len();
                 data.extend_from_slice(&files[i].1);
                 last_body = Some(i);
             }
         }
+    }
+    if case.extras & 4 == 4 && n >= 2 {
+        // file 1 := a sub-range of file 0's body (two records, overlapping ranges)
+        let b0 = files[0].1.clone();
+        let start = b0.len() / 3;
+        files[1].1 = b0[start..].to_vec();
+        body_addr[1] = body_addr[0] + start;
     }
     let mut cells = BTreeMap::new();
     let mut labels: BTreeMap<u32, Vec<String>> = BTreeMap::new();
@@ -159,7 +170,7 @@ impl Prop for C16 {
     const ID: &'static str = "C16";
     fn rule() -> String {
         "Sets of 0..=8 distinct Shift-JIS-lossless names with contents (empty, unaligned lengths, <= 600 bytes) are laid out as an arc data region by the harness: with or without the 0x60-byte zero header (without it the first data word is non-zero), \
-         the Count cell, the Info table and the bodies in a generated order with gaps, records in a generated order, bodies anywhere (incl. an empty body at the very end of the data), offsets relative to the end of the header when present; optionally every record also carries its file name as a label (as the games' files do; names such as Data included) and the tables are placed without word alignment; the bin-archive image is written by \
+         the Count cell, the Info table and the bodies in a generated order with gaps, records in a generated order, bodies anywhere (incl. an empty body at the very end of the data), offsets relative to the end of the header when present; optionally every record also carries its file name as a label (as the games' files do; names such as Data included) the tables are placed without word alignment, and two records may name overlapping ranges (one body, or a sub-range of it); the bin-archive image is written by \
          the independent reference writer (canonical or permuted tables / moved strings). Oracle: arc::from_bytes returns exactly one entry per record, keyed by name, with exactly the recorded bytes. Negative variants: Count label removed => Err, Info label removed => Err, \
          one record without a name pointer => Err, one record whose range leaves the data region (by 1..=256 bytes, or an offset field near 2^32) => Err; never a panic, in both builds. \
          Non-trivial: >= 2 files and (no header, or record order != body order, or an empty file). Distinct = distinct case value."
@@ -172,7 +183,7 @@ impl Prop for C16 {
         true
     }
     fn random_cases(tier: Tier) -> u64 {
-        tier.pick(10_000, 5_000_000)
+        tier.pick(60_000, 5_000_000)
     }
     fn strategy(_tier: Tier) -> BoxedStrategy<Case> {
         let name = prop_oneof![3 => "[a-zA-Z0-9_.]{1,12}", 2 => sjis_string(8), 1 => proptest::sample::select(vec!["Count".to_string(), "Info".to_string(), "".to_string(), "Data".to_string(), "Header".to_string()])];
@@ -185,7 +196,7 @@ impl Prop for C16 {
             2 => (any::<u16>(), any::<u8>()).prop_map(|(a, b)| Negative::RangePastEnd(a, b)),
             1 => any::<u16>().prop_map(Negative::HugeOffset),
         ];
-        (proptest::collection::vec((name, len, any::<u64>()), 0..=8), any::<bool>(), any::<u64>(), any::<bool>(), negative, prop_oneof![2 => Just(0u8), 1 => Just(1u8), 1 => 0u8..4])
+        (proptest::collection::vec((name, len, any::<u64>()), 0..=8), any::<bool>(), any::<u64>(), any::<bool>(), negative, prop_oneof![2 => Just(0u8), 1 => Just(1u8), 1 => 0u8..8])
             .prop_map(|(files, header, layout_seed, alt_image, negative, extras)| Case { files, header, layout_seed, alt_image, negative, extras })
             .boxed()
     }
@@ -198,7 +209,7 @@ impl Prop for C16 {
                     for alt in [false, true] {
                         let mine = idx % nshards == shard;
                         idx += 1;
-                        if mine && !f(Case { files: files.clone(), header, layout_seed: seed, alt_image: alt, negative: Negative::None, extras: (seed % 4) as u8 }) {
+                        if mine && !f(Case { files: files.clone(), header, layout_seed: seed, alt_image: alt, negative: Negative::None, extras: (seed % 8) as u8 }) {
                             return;
                         }
                     }
@@ -272,6 +283,7 @@ impl Prop for C16 {
         cx.label_if(b.record_order_differs, "record-order-differs");
         cx.label_if(case.alt_image, "permuted-image");
         cx.label_if(case.extras & 1 == 1, "records-labelled-with-file-names");
+        cx.label_if(case.extras & 4 == 4 && n >= 2, "overlapping-record-ranges");
         cx.label_if(case.extras & 2 == 2 && b.content.cells.keys().any(|a| a % 4 != 0), "unaligned-record-table");
         cx.label_if(!case.header && b.content.data.len() < 0x60, "no-header-and-data<0x60");
     }
